@@ -117,11 +117,10 @@ example : WF { outputs := ["x"], removes := ["y"] } = true := by decide
 
 /-! ### witnesses of the finding regions -/
 
-/-- Clean fails (first line of a stale file cannot be read): exit 1 although the output has been written -/
-theorem C18_F_clean_error_witness :
-    region .cleanNoNewline = .F_clean_error ∧
-    run (classify .new .cleanNoNewline ["a.shootnew.go"] ["z.shootnew.old.go"]) = (.fatal, [.write "a.shootnew.go"]) ∧
-    specOK (run (classify .new .cleanNoNewline ["a.shootnew.go"] ["z.shootnew.old.go"])) = false := by decide
+/-- (a Clean error — now only a real I/O error, `firstLine` tolerates a missing newline since /repo 63484d4 — is the one
+    modelled way to exit 1 after the writes; it is excluded by the hypotheses of `C18_no_change_on_failure`) -/
+example : run { outputs := ["a.shootnew.go"], removes := ["z.shootnew.old.go"], cleanErr := some 0 }
+    = (.fatal, [.write "a.shootnew.go"]) := by decide
 
 theorem C18_F_panic_valuerecv_witness :
     region .valueRecv = .F_panic_valuerecv ∧ run (classify .map .valueRecv ["a.shootmap.order.go"] []) = (.panic, []) ∧
